@@ -59,7 +59,14 @@ func Replay(base *Stor, ops []Op) *Replayed {
 		r.meta = base.meta
 	}
 	for i := range ops {
-		op := &ops[i]
+		r.Apply(&ops[i])
+	}
+	return r
+}
+
+// Apply advances the replayed state by one logged operation.
+func (r *Replayed) Apply(op *Op) {
+	{
 		switch op.Kind {
 		case KCreate:
 			if op.Eff {
@@ -92,7 +99,6 @@ func Replay(base *Stor, ops []Op) *Replayed {
 			}
 		}
 	}
-	return r
 }
 
 // Dirty lists the files that have an unsynced tail, with the tail's interesting cut points
